@@ -18,10 +18,24 @@ def is_from_residual(e):
 def ret_assignments(fn):
     """[(block, expr)] for every whole assignment to the return place."""
     out = []
+
+    def expand(local, b, depth):
+        """definitions of a plain local moved into the return place (look through `let r = ..; r` and inlined helpers)"""
+        res = []
+        for db, e in fn.root_defs(local):
+            res.append((db, e))
+        return res
     for (dp, b, i, kind, payload) in fn.defs(0):
         if dp:
             continue
         if kind == "rv":
+            if payload["k"] == "use":
+                pl = payload["a"].get("copy") or payload["a"].get("move")
+                if pl is not None and not pl["p"] and not (1 <= pl["l"] <= fn.nargs):
+                    sub = expand(pl["l"], b, 0)
+                    if len(sub) > 1:
+                        out.extend(sub)
+                        continue
             e = fn._rvalue(payload, frozenset([0]), 40, b)
         elif kind == "call":
             e = fn._call_expr(payload, b, frozenset([0]), 40)
